@@ -1,1 +1,3 @@
 pub mod geom;
+pub mod fast;
+pub mod rules;
